@@ -77,6 +77,7 @@ struct VarTab {
       else if (t == "rgn") ty = crab::variable_type(crab::REG_INT_TYPE, w);
       else if (t == "brgn") ty = crab::variable_type(crab::REG_BOOL_TYPE, 1);
       else if (t == "rrgn") ty = crab::variable_type(crab::REG_REF_TYPE, w);
+      else if (t == "urgn") ty = crab::variable_type(crab::REG_UNKNOWN_TYPE, 0);
       else if (t == "ref") ty = crab::variable_type(crab::REF_TYPE, w);
       vars.push_back(z_var((*vfac)[n], ty));
       types.push_back(t);
@@ -129,6 +130,9 @@ inline bool emit_cst(std::ostream &o, const z_lin_cst_t &c, const VarTab &vt) {
   for (auto it = e.begin(); it != e.end(); ++it) {
     int idx = vt.find(it->second);
     if (!idx || !fits(it->first, BIGC)) return false;
+    // only integer/boolean scalars have a value in the concrete states of the specs: a constraint that mentions the
+    // ghost variable of a region (region_domain) is dropped (weaker)
+    if (vt.types[idx] != "int" && vt.types[idx] != "bool") return false;
     s << (first ? "" : ",") << "[" << it->first.get_str() << "," << idx << "]";
     first = false;
   }
